@@ -103,6 +103,48 @@ func runC12(c *core.Ctx, r *core.Result) {
 			w.Close()
 		}
 	}
+	// the same scenarios with the scenario block ON a staking-snapshot height (432), where the
+	// pipeline looks up fall-back rates for the holder payouts
+	for _, st := range []int{drive.StV20Dev, drive.StV202, drive.StPIP10} {
+		era := drive.EraStage(st)
+		era.Name += "-at-snapshot-height"
+		var w *World
+		for _, sc := range c12Scenarios(era, false) {
+			if strings.HasPrefix(sc.name, "both/") && !strings.Contains(sc.name, "spread") {
+				continue
+			}
+			idx++
+			if !c.Mine(idx) && c.Only == "" {
+				continue
+			}
+			key := era.Name + "/" + sc.name
+			if !c.Want(key) {
+				continue
+			}
+			if c.Expired() {
+				r.Capped("deadline before " + key)
+				if w != nil {
+					w.Close()
+				}
+				return
+			}
+			if w == nil {
+				w = MustWorld(era, func(b *drive.Builder) {
+					FundStd(b)
+					for b.Next() < 427 {
+						b.AddEmpty(1)
+					}
+					for b.Next() < 431 {
+						b.Add(drive.BlockSpec{Rates: R1(), OPRPayTo: kit.AddrStr(KM)})
+					}
+				})
+			}
+			c12One(c, r, w, era, sc, key)
+		}
+		if w != nil {
+			w.Close()
+		}
+	}
 	// equation phase from genesis: supply zero, then non-zero
 	if c.Mine(idx+1) || c.Only != "" {
 		c12Genesis(c, r)
